@@ -231,6 +231,8 @@ def _prog(ctx, p, rng):
             x = np.round(2 * x) + (np.round(2 * x) == 0)          # integer-valued point, handed over as an integer array below
         if name != 'comp' and not pr.in_domain([x.reshape(pr.ins[0][0])]):
             ctx.skip('out_of_domain:regularity-condition'); continue
+        if name == 'comp' and g.peak(x) > 1e6:
+            ctx.skip('out_of_domain:ill-conditioned (intermediate values > 1e6 cancel in the output)'); continue
         where = 'at-recording-point' if ip == 0 else ('away-integer-arguments' if intargs else 'away')
         v = rng.normal(size=n); w = rng.normal(size=m)
         if intargs:
@@ -254,8 +256,10 @@ def _prog(ctx, p, rng):
         info = {'program': name, 'rec': rec, 'where': where, 'n': n, 'm': m}
         ity = [np.int64, np.int32, np.int16][int(rng.integers(3))]       # integers of any width
         xa, va, wa = (x.astype(ity), v.astype(ity), w.astype(ity)) if intargs else (x, v, w)
+        info = dict(info, x=x.tolist(), argument_type=(np.dtype(ity).name if intargs else 'float64'), recorded_at=np.asarray(xr).tolist())
         if intargs and rng.random() < 0.35:
             xa, va, wa = xa.tolist(), va.tolist(), wa.tolist()
+            info['argument_type'] = 'list of Python ints'
         X_ = lambda: (list(xa) if isinstance(xa, list) else xa.copy())
         V_ = lambda: (list(va) if isinstance(va, list) else va.copy())
         W_ = lambda: (list(wa) if isinstance(wa, list) else wa.copy())
